@@ -3,21 +3,33 @@
    every op of the history. *)
 From Tab Require Export Run.Glue Model.Core Spec.History.
 
+(* A case is (history, every, dump): every = true when the table was dumped
+   after every op, false when only after the last one (long histories).
+   Histories arrive run-length compressed: *)
+Definition adds (ref : rref) (xs : list N) : list (op N) := map (RowAdd ref) xs.    (* a burst of Row.Add on one row *)
+Definition times (n : nat) (seg : list (op N)) : list (op N) := concat (repeat seg n).
+
 (* the property, judged on the implementation's own dump: it must be exactly
    what the history spec expects (counts, order, locations, CellAt over the
    bounding box +-1, Column handles), recomputed from the history without the
    model *)
-Definition C02_ok (h : list (op N)) (o : res (list N)) : bool :=
+Definition C02_ok (h : list (op N)) (every : bool) (o : res (list N)) : bool :=
   match o with
-  | Ok d => bytes_eqb (spec_dump h) d
+  | Ok d => bytes_eqb (if every then spec_dump h else spec_dump_last h) d
   | _ => false                       (* a building or observing call panicked *)
   end.
 
-Definition C02_case (c : list (op N) * res (list N)) : N :=
-  let '(h, o) := c in
-  code (res_eqb bytes_eqb (Ok (model_dump h)) o) (C02_ok h o).
+Definition C02_case (c : list (op N) * bool * res (list N)) : N :=
+  let '(h, every, o) := c in
+  code (res_eqb bytes_eqb (Ok (if every then model_dump h else model_dump_last h)) o) (C02_ok h every o).
 
-(* for replays: well-formedness of the history, the model's and the spec's
-   last dump *)
-Definition C02_model (c : list (op N) * res (list N)) :=
-  (wf_histb (fst c), observe (run (fst c)), expected (spec_run (fst c))).
+(* for replays: well-formedness of the history, its length, whether model and
+   spec agree on it, and - for a short history - the model's and the spec's
+   last dump (the readable form of the implementation's last dump is in the
+   case description) *)
+Definition hist_size (h : list (op N)) : nat :=
+  fold_left (fun n o => match o with AddRowItems xs | AddHeaders xs => S (n + length xs) | _ => S n end) h 0.
+Definition C02_model (c : list (op N) * bool * res (list N)) :=
+  let h := fst (fst c) in
+  (wf_histb h, hist_size h, bytes_eqb (model_dump_last h) (spec_dump_last h),
+   if hist_size h <=? 40 then Some (observe (run h), expected (spec_run h)) else None).
